@@ -5972,3 +5972,125 @@ def c18_discharge(env):
 
 
 REGISTRY.setdefault("C18", []).append(c18_discharge)
+
+
+# ---- C14: the error carried by the peer's end is what the links of that session learn -------------------------
+
+
+def c14_end_error_wins(env):
+    o = Obligation("c14_the_peers_end_error_is_what_the_links_learn", "C14")
+    o.desc = "SessionEngine::on_incoming, End arm: when the peer's end moves the session to END_RCVD the stop reason published to the links (before their channel is closed) is RemoteEndedWithError(the peer's error) whenever the end carries an error -- whatever the connection has recorded in the meantime (the peer's close or a cut transport may follow the end back-to-back and be processed by the connection engine first) --; without an error it is the connection's reason if one is recorded, else RemoteEnded; the reason is stored before the links' channel is closed"
+    fn = env.fn(r"^session::engine::<impl at [^>]*>::on_incoming::\{closure#0\}$")
+    o.functions = [fn.name]
+    o.bounds = ["coroutine body from its initial state through one poll with an End frame; error present or absent; every result of on_incoming_end, local_state and OnceLock::get"]
+    o.assumes = ["OnceLock::get returns the recorded connection stop reason, if any; SessionStopReason::from(ConnectionStopReason) is ConnectionStopped"]
+    SR = env.enums["SessionStopReason"]
+    SFB = env.enums.get("SessionFrameBody")
+    if not SFB or "End" not in SFB:
+        raise mir.Unsupported("SessionFrameBody layout not found")
+    txt = "\n".join(t for b in fn.blocks.values() for t in (b[0] + [b[1]]))
+    am = re.search(r"move \(\(\*_\d+\)\.(\d+): (session::frame::)?SessionFrame\)", txt)
+    sm = re.search(r"move \(\(\*_\d+\)\.(\d+): &mut (session::engine::)?SessionEngine<", txt)
+    if not am or not sm:
+        raise mir.Unsupported("arguments of SessionEngine::on_incoming not found in the coroutine")
+    i_body = env.fidx("SessionFrame", "body")
+    i_err = env.fidx("End", "error")
+    err_d = z3.BitVec("end.error.is_some", 64)
+
+    def m_from(ex_, st, callee, args, argvals, dty):
+        r = mir.Agg("SessionStopReason::ConnectionStopped")
+        r["#d"] = z3.BitVecVal(SR["ConnectionStopped"], 64)
+        return r
+
+    def m_clone_opt(ex_, st, callee, args, argvals, dty):
+        x = argvals[0]
+        k_ = 0
+        while isinstance(x, mir.Ref) and k_ < 4:
+            cont, key = ex_.resolve(st, list(x.path))
+            x = cont.get(key)
+            k_ += 1
+        if not (isinstance(x, mir.Agg) and "#d" in x):
+            return None
+        c = mir.Agg("Option")
+        c["#d"] = x["#d"]
+        if ("as", "Some") in x:
+            c[("as", "Some")] = x[("as", "Some")]
+        return c
+
+    got_d = z3.BitVec("connection_stop_reason.is_recorded", 64)
+
+    def m_get(ex_, st, callee, args, argvals, dty):
+        r = mir.Agg("Option<&ConnectionStopReason>")
+        r["#d"] = got_d
+        sub = mir.Agg("Some")
+        sub[0] = mir.Ref(("@csr",), False)
+        r[("as", "Some")] = sub
+        return r
+
+    ex = env.executor(max_visits=2)
+    ex.max_paths = 4000
+    ex.stop_calls = r"^std::future::poll_fn::<"
+    ex.models = [
+        (r"^<(link::error::)?SessionStopReason as From<(connection::)?ConnectionStopReason>>::from$", m_from),
+        (r"^<(std::option::)?Option<(fe2o3_amqp_types::)?(definitions::)?Error> as Clone>::clone$", m_clone_opt),
+        (r"^OnceLock::<(connection::)?ConnectionStopReason>::get$", m_get),
+    ]
+    F = mir.Agg("SessionFrame")
+    body = mir.Agg("SessionFrameBody")
+    body["#d"] = z3.BitVecVal(SFB["End"], 64)
+    E = mir.Agg("End")
+    eo = mir.Agg("Option<Error>")
+    eo["#d"] = err_d
+    sub = mir.Agg("Some")
+    sub[0] = mir.Agg("the peer's error")
+    sub[0]["@peer_error"] = True
+    eo[("as", "Some")] = sub
+    E[i_err] = eo
+    v = mir.Agg("End(..)")
+    v[0] = E
+    body[("as", "End")] = v
+    F[i_body] = body
+    cor = mir.Agg("coroutine")
+    cor["#d"] = z3.BitVecVal(0, 64)
+    cor[int(sm.group(1))] = mir.Ref(("@engine",), True)
+    cor[int(am.group(1))] = F
+    pin = mir.Agg("pin")
+    pin[0] = mir.Ref(("@cor",), True)
+    paths = ex.run(fn, {"_1": pin, "@cor": cor, "@engine": mir.Agg("engine"), "@csr": mir.Agg("csr")})
+    hyp = ex.assumptions + [z3.ULE(err_d, 1), z3.ULE(got_d, 1)]
+
+    def replay(m):
+        cmds = ["scn stop_reason end_err_close", "scn stop_reason end_err"]
+        return cmds, (lambda outs: any(js.get("panic") or not js["as_expected"] for js in outs))
+
+    n = 0
+    for i, p in enumerate(paths):
+        names = [c[0] for c in p.calls]
+        sets = [j for j, c in enumerate(names) if re.search(r"Session>::set_session_stop_reason$", c)]
+        if not sets:
+            continue
+        H = hyp + p.cond
+        s = z3.Solver()
+        s.add(*H)
+        if s.check() != z3.sat:
+            continue
+        n += 1
+        reason = p.calls[sets[0]][1][1]
+        rd = reason.get("#d") if isinstance(reason, mir.Agg) else None
+        if rd is None:
+            o.prove(f"path{i}:the-reason-is-a-known-variant", H, z3.BoolVal(False), replay=replay)
+            continue
+        o.prove(f"path{i}:the-peers-error-wins", H + [err_d == 1], rd == SR["RemoteEndedWithError"], replay=replay)
+        if isinstance(rd, int) or z3.is_bv(rd):
+            carried = reason.get(("as", "RemoteEndedWithError"))
+            inner = carried.get(0) if isinstance(carried, mir.Agg) else None
+            o.prove(f"path{i}:and-it-is-the-peers-error-that-is-carried", H + [err_d == 1], z3.BoolVal(isinstance(inner, mir.Agg) and inner.get("@peer_error") is True), replay=replay)
+        o.prove(f"path{i}:no-error-and-nothing-recorded-is-a-plain-remote-end", H + [err_d == 0, got_d == 0], rd == SR["RemoteEnded"], replay=replay)
+        o.prove(f"path{i}:no-error-but-a-recorded-connection-stop-is-reported", H + [err_d == 0, got_d == 1], rd == SR["ConnectionStopped"], replay=replay)
+        closes = [j for j, c in enumerate(names) if re.search(r"mpsc::(bounded::)?Receiver::<.*>::close$", c)]
+        o.prove(f"path{i}:stored-before-the-links-channel-is-closed", H, z3.BoolVal(not closes or sets[0] < closes[0]), replay=replay)
+    o.cover("paths that publish a reason", [z3.BoolVal(n > 0)])
+    return [o]
+
+
+REGISTRY.setdefault("C14", []).append(c14_end_error_wins)
